@@ -1260,6 +1260,7 @@ theorem AC.invert_invert : ∀ a : AC, a.noProvider = true → a.invert.invert =
     simp only [AC.noProvider] at h
     simp only [AC.invert, AC.invertL_invertL cs h]
   | .provider, h => by simp [AC.noProvider] at h
+  | .otherK, _ => rfl
 theorem AC.invertL_invertL : ∀ cs : List AC, AC.noProviderL cs = true →
     AC.invertL (AC.invertL cs) = cs
   | [], _ => rfl
@@ -1418,7 +1419,7 @@ theorem alwaysTrueWrong_absent_core {tbl : ClassTable} {T : BoolTable} (hN : noL
 
 theorem negKs_singleton (T : BoolTable) (l : Obj) :
     Pat.negKs T (.singleton l) = [.predicate (.equals l true) false] := by
-  simp [Pat.negKs, Pat.ac, Cond.k, AC.mkAnd, spliceAnd, AC.invert, K.invert, AC.apply]
+  simp [Pat.negKs, Pat.ac, Cond.k, AC.mkAnd, spliceAnd, absorbAnd, hasNull, AC.isNull, AC.invert, K.invert, AC.apply]
 
 theorem ac_singleton_apply (T : BoolTable) (l : Obj) :
     (Pat.ac T (.singleton l)).apply = [.predicate (.equals l true) true] := by
@@ -1546,5 +1547,425 @@ theorem match_singletons_core {tbl : ClassTable} {T : BoolTable} (L : NLaws tbl 
     simp only [singOk, List.all_eq_true] at hv; exact hv m hmem
   obtain ⟨r, hr, hor, _⟩ := matchSteps_keep L ho ps hp (flatten1 v) ⟨m, hmem, hom, hP⟩
   exact ⟨r, hr, hor⟩
+
+/-! ### 12. boolean combinations with opaque operands and atoms on other variables -/
+
+mutual
+/-- **Satisfaction of an abstract constraint** by the run-time state, relative to a notion `G` of a
+concrete constraint being true of it: the null constraint (an operand that says nothing about the
+variable) is always satisfied, AND needs every part, OR one alternative. -/
+def AC.Sat (G : K → Prop) : AC → Prop
+  | .null => True
+  | .k c => G c
+  | .and cs => AC.SatAll G cs
+  | .or cs => AC.SatAny G cs
+  | .equiv cs => AC.SatAll G cs
+  | .provider => True
+  | .otherK => True
+def AC.SatAll (G : K → Prop) : List AC → Prop
+  | [] => True
+  | c :: cs => AC.Sat G c ∧ AC.SatAll G cs
+def AC.SatAny (G : K → Prop) : List AC → Prop
+  | [] => False
+  | c :: cs => AC.Sat G c ∨ AC.SatAny G cs
+end
+
+theorem satAll_iff {G : K → Prop} : ∀ {cs : List AC}, AC.SatAll G cs ↔ ∀ c ∈ cs, AC.Sat G c
+  | [] => by simp [AC.SatAll]
+  | c :: cs => by simp [AC.SatAll, satAll_iff (cs := cs)]
+
+theorem satAny_iff {G : K → Prop} : ∀ {cs : List AC}, AC.SatAny G cs ↔ ∃ c ∈ cs, AC.Sat G c
+  | [] => by simp [AC.SatAny]
+  | c :: cs => by simp [AC.SatAny, satAny_iff (cs := cs)]
+
+mutual
+/-- a satisfied abstract constraint only activates concrete constraints that keep the object -/
+theorem sat_apply {tbl : ClassTable} {T : BoolTable} {o : Obj} {G : K → Prop}
+    (hG : ∀ k, G k → KeepsK tbl T k o) : ∀ (a : AC), AC.Sat G a → ∀ k ∈ a.apply, KeepsK tbl T k o
+  | .null, _, k, hk => by simp [AC.apply] at hk
+  | .k c, h, k, hk => by
+    simp only [AC.apply, List.mem_singleton] at hk; subst hk; exact hG _ h
+  | .and cs, h, k, hk => by
+    simp only [AC.apply] at hk
+    exact sat_applyL hG cs h k hk
+  | .equiv cs, h, k, hk => by
+    simp only [AC.apply] at hk
+    exact sat_applyL hG cs h k hk
+  | .provider, _, k, hk => by simp [AC.apply] at hk
+  | .otherK, _, k, hk => by simp [AC.apply] at hk
+  | .or cs, h, k, hk => by
+    simp only [AC.apply, groups_eq] at hk
+    cases hcs : cs.map AC.apply with
+    | nil => rw [hcs] at hk; simp at hk
+    | cons g gs =>
+      rw [hcs] at hk
+      simp only at hk
+      split at hk
+      · simp at hk
+      · simp only [List.mem_singleton] at hk
+        subst hk
+        apply oneOf_keeps
+        obtain ⟨c, hc, hsat⟩ := sat_any_pick cs h
+        have : c.apply ∈ g :: gs := by rw [← hcs]; exact List.mem_map.mpr ⟨c, hc, rfl⟩
+        exact ⟨groupK c.apply, List.mem_map.mpr ⟨_, this, rfl⟩,
+          groupK_keeps (sat_apply hG c hsat)⟩
+theorem sat_applyL {tbl : ClassTable} {T : BoolTable} {o : Obj} {G : K → Prop}
+    (hG : ∀ k, G k → KeepsK tbl T k o) : ∀ (cs : List AC), AC.SatAll G cs →
+    ∀ k ∈ AC.applyL cs, KeepsK tbl T k o
+  | [], _, k, hk => by simp [AC.applyL] at hk
+  | c :: cs, h, k, hk => by
+    simp only [AC.applyL, List.mem_append] at hk
+    rcases hk with hk | hk
+    · exact sat_apply hG c h.1 k hk
+    · exact sat_applyL hG cs h.2 k hk
+theorem sat_any_pick {G : K → Prop} : ∀ (cs : List AC), AC.SatAny G cs → ∃ c, c ∈ cs ∧ AC.Sat G c
+  | [], h => by cases h
+  | c :: cs, h => by
+    rcases h with h | h
+    · exact ⟨c, by simp, h⟩
+    · obtain ⟨c', hc', hs⟩ := sat_any_pick cs h
+      exact ⟨c', by simp [hc'], hs⟩
+end
+
+theorem invertL_eq_map : ∀ (cs : List AC), AC.invertL cs = cs.map AC.invert
+  | [] => rfl
+  | c :: cs => by simp [AC.invertL, invertL_eq_map cs]
+
+theorem acL_eq_map (T : BoolTable) : ∀ (bs : List BCond), BCond.acIdealL T bs = bs.map (BCond.acIdeal T)
+  | [] => rfl
+  | b :: bs => by simp [BCond.acIdealL, acL_eq_map T bs]
+
+theorem holdsAll_iff (tbl : ClassTable) (ρ : Env) (o : Obj) : ∀ (bs : List BCond),
+    holdsAll tbl ρ bs o = true ↔ ∀ b ∈ bs, holdsB tbl ρ b o = true
+  | [] => by simp [holdsAll]
+  | b :: bs => by simp [holdsAll, holdsAll_iff tbl ρ o bs]
+
+theorem holdsAny_iff (tbl : ClassTable) (ρ : Env) (o : Obj) : ∀ (bs : List BCond),
+    holdsAny tbl ρ bs o = true ↔ ∃ b ∈ bs, holdsB tbl ρ b o = true
+  | [] => by simp [holdsAny]
+  | b :: bs => by simp [holdsAny, holdsAny_iff tbl ρ o bs]
+
+mutual
+theorem sat_invert_invert {G : K → Prop} : ∀ (a : AC), AC.Sat G a → AC.Sat G a.invert.invert
+  | .null, _ => by simp [AC.invert, AC.Sat]
+  | .k c, h => by simpa [AC.invert, AC.Sat, K.invert_invert] using h
+  | .and cs, h => by
+    simp only [AC.invert, AC.Sat] at h ⊢
+    exact satAll_invert_invert cs h
+  | .or cs, h => by
+    simp only [AC.invert, AC.Sat] at h ⊢
+    exact satAny_invert_invert cs h
+  | .equiv cs, h => by
+    simp only [AC.invert, AC.Sat] at h ⊢
+    exact satAll_invert_invert cs h
+  | .provider, _ => by simp [AC.invert, AC.Sat]
+  | .otherK, _ => by simp [AC.invert, AC.Sat]
+theorem satAll_invert_invert {G : K → Prop} : ∀ (cs : List AC), AC.SatAll G cs →
+    AC.SatAll G (AC.invertL (AC.invertL cs))
+  | [], _ => by simp [AC.invertL, AC.SatAll]
+  | c :: cs, h => by
+    simp only [AC.invertL, AC.SatAll] at h ⊢
+    exact ⟨sat_invert_invert c h.1, satAll_invert_invert cs h.2⟩
+theorem satAny_invert_invert {G : K → Prop} : ∀ (cs : List AC), AC.SatAny G cs →
+    AC.SatAny G (AC.invertL (AC.invertL cs))
+  | [], h => by cases h
+  | c :: cs, h => by
+    simp only [AC.invertL, AC.SatAny] at h ⊢
+    rcases h with h | h
+    · exact Or.inl (sat_invert_invert c h)
+    · exact Or.inr (satAny_invert_invert cs h)
+end
+
+theorem satAll_spliceAnd {G : K → Prop} : ∀ (cs : List AC), AC.SatAll G cs → AC.SatAll G (spliceAnd cs)
+  | [], _ => by simp [spliceAnd, AC.SatAll]
+  | c :: cs, h => by
+    have ih := satAll_spliceAnd cs h.2
+    cases c <;> simp only [spliceAnd, AC.SatAll] <;> try exact ⟨h.1, ih⟩
+    rw [satAll_iff] at ih ⊢
+    intro x hx
+    rcases List.mem_append.mp hx with hx | hx
+    · exact (satAll_iff.mp (by simpa [AC.Sat] using h.1)) x hx
+    · exact ih x hx
+
+theorem satAny_spliceOr {G : K → Prop} : ∀ (cs : List AC), AC.SatAny G cs → AC.SatAny G (spliceOr cs)
+  | [], h => by cases h
+  | c :: cs, h => by
+    rw [satAny_iff] at h ⊢
+    obtain ⟨x, hx, hs⟩ := h
+    rcases List.mem_cons.mp hx with rfl | hx
+    · cases x with
+      | or ys =>
+        simp only [AC.Sat] at hs
+        obtain ⟨y, hy, hys⟩ := satAny_iff.mp hs
+        exact ⟨y, by simp [spliceOr, hy], hys⟩
+      | _ => exact ⟨_, by simp [spliceOr], hs⟩
+    · obtain ⟨y, hy, hys⟩ := satAny_iff.mp (satAny_spliceOr cs (satAny_iff.mpr ⟨x, hx, hs⟩))
+      cases c <;> simp only [spliceOr] <;> exact ⟨y, by simp [hy], hys⟩
+
+/-- some element of the spliced conjunction has a satisfied inverse as soon as one conjunct has -/
+theorem splice_and_inv {G : K → Prop} : ∀ (cs : List AC), (∃ c ∈ cs, AC.Sat G c.invert) →
+    ∃ x ∈ spliceAnd cs, AC.Sat G x.invert
+  | [], h => by simp at h
+  | c :: cs, h => by
+    obtain ⟨x, hx, hs⟩ := h
+    rcases List.mem_cons.mp hx with rfl | hx
+    · cases x with
+      | and ys =>
+        simp only [AC.invert, AC.Sat, invertL_eq_map] at hs
+        obtain ⟨y, hy, hys⟩ := satAny_iff.mp hs
+        obtain ⟨z, hz, rfl⟩ := List.mem_map.mp hy
+        exact ⟨z, by simp [spliceAnd, hz], hys⟩
+      | _ => exact ⟨_, by simp [spliceAnd], hs⟩
+    · obtain ⟨y, hy, hys⟩ := splice_and_inv cs ⟨x, hx, hs⟩
+      cases c <;> simp only [spliceAnd] <;> exact ⟨y, by simp [hy], hys⟩
+
+theorem splice_or_inv {G : K → Prop} : ∀ (cs : List AC), (∀ c ∈ cs, AC.Sat G c.invert) →
+    ∀ x ∈ spliceOr cs, AC.Sat G x.invert
+  | [], _, x, hx => by simp [spliceOr] at hx
+  | c :: cs, h, x, hx => by
+    have ih := splice_or_inv cs (fun c' hc' => h c' (by simp [hc']))
+    have hc := h c (by simp)
+    cases c <;> simp only [spliceOr, List.mem_cons, List.mem_append] at hx <;>
+      try (rcases hx with rfl | hx; exact hc; exact ih x hx)
+    rcases hx with hx | hx
+    · simp only [AC.invert, AC.Sat, invertL_eq_map] at hc
+      exact (satAll_iff.mp hc) _ (List.mem_map.mpr ⟨x, hx, rfl⟩)
+    · exact ih x hx
+
+theorem dedupNull_sub : ∀ (xs : List AC), ∀ x ∈ dedupNull xs, x ∈ xs
+  | [], x, hx => by simp [dedupNull] at hx
+  | c :: cs, x, hx => by
+    cases c with
+    | null =>
+      simp only [dedupNull, List.mem_cons, List.mem_filter] at hx
+      rcases hx with rfl | hx
+      · simp
+      · exact List.mem_cons_of_mem _ hx.1
+    | _ =>
+      simp only [dedupNull, List.mem_cons] at hx
+      rcases hx with rfl | hx
+      · simp
+      · exact List.mem_cons_of_mem _ (dedupNull_sub cs x hx)
+
+theorem null_mem_dedupNull : ∀ {xs : List AC}, AC.null ∈ xs → AC.null ∈ dedupNull xs
+  | c :: cs, h => by
+    cases c with
+    | null => simp [dedupNull]
+    | _ =>
+      simp only [List.mem_cons] at h
+      rcases h with h | h
+      · cases h
+      · simp [dedupNull, null_mem_dedupNull h]
+
+theorem absorbAnd_sub (xs : List AC) : ∀ x ∈ absorbAnd xs, x ∈ xs := by
+  intro x hx
+  unfold absorbAnd at hx
+  split at hx
+  · exact (List.mem_filter.mp (dedupNull_sub _ x hx)).1
+  · exact hx
+
+theorem absorbOr_sub (xs : List AC) : ∀ x ∈ absorbOr xs, x ∈ xs := by
+  intro x hx
+  unfold absorbOr at hx
+  split at hx
+  · exact (List.mem_filter.mp (dedupNull_sub _ x hx)).1
+  · exact hx
+
+theorem hasNull_iff (xs : List AC) : hasNull xs = true ↔ AC.null ∈ xs := by
+  simp only [hasNull, List.any_eq_true]
+  constructor
+  · rintro ⟨x, hx, hn⟩; cases x <;> simp [AC.isNull] at hn; exact hx
+  · intro h; exact ⟨_, h, rfl⟩
+
+theorem null_mem_absorbAnd {xs : List AC} (h : AC.null ∈ xs) : AC.null ∈ absorbAnd xs := by
+  unfold absorbAnd
+  rw [(hasNull_iff xs).mpr h]
+  exact null_mem_dedupNull (by simp [List.mem_filter, h])
+
+theorem null_mem_absorbOr {xs : List AC} (h : AC.null ∈ xs) : AC.null ∈ absorbOr xs := by
+  unfold absorbOr
+  rw [(hasNull_iff xs).mpr h]
+  exact null_mem_dedupNull (by simp [List.mem_filter, h])
+
+theorem absorbAnd_of_not {xs : List AC} (h : hasNull xs = false) : absorbAnd xs = xs := by
+  simp [absorbAnd, h]
+
+theorem absorbOr_of_not {xs : List AC} (h : hasNull xs = false) : absorbOr xs = xs := by
+  simp [absorbOr, h]
+
+theorem sat_mkAnd {G : K → Prop} {cs : List AC} (h : ∀ c ∈ cs, AC.Sat G c) : AC.Sat G (AC.mkAnd cs) := by
+  have h1 := satAll_iff.mp (satAll_spliceAnd cs (satAll_iff.mpr h))
+  have h2 : ∀ x ∈ absorbAnd (spliceAnd cs), AC.Sat G x := fun x hx => h1 x (absorbAnd_sub _ x hx)
+  unfold AC.mkAnd
+  generalize absorbAnd (spliceAnd cs) = ys at h2
+  match ys, h2 with
+  | [], _ => simp [AC.Sat]
+  | [c], h2 => exact h2 c (by simp)
+  | c :: d :: r, h2 => simpa [AC.Sat] using satAll_iff.mpr h2
+
+theorem sat_mkOr {G : K → Prop} {cs : List AC} (h : ∃ c ∈ cs, AC.Sat G c) : AC.Sat G (AC.mkOr cs) := by
+  obtain ⟨x, hx, hs⟩ := satAny_iff.mp (satAny_spliceOr cs (satAny_iff.mpr h))
+  have h2 : ∃ y ∈ absorbOr (spliceOr cs), AC.Sat G y := by
+    cases hn : hasNull (spliceOr cs) with
+    | false => rw [absorbOr_of_not hn]; exact ⟨x, hx, hs⟩
+    | true => exact ⟨.null, null_mem_absorbOr ((hasNull_iff _).mp hn), by simp [AC.Sat]⟩
+  unfold AC.mkOr
+  generalize absorbOr (spliceOr cs) = ys at h2
+  obtain ⟨y, hy, hys⟩ := h2
+  match ys, hy with
+  | [c], hy => simp only [List.mem_singleton] at hy; subst hy; exact hys
+  | c :: d :: r, hy => simpa [AC.Sat] using satAny_iff.mpr ⟨y, hy, hys⟩
+
+theorem sat_mkAnd_invert {G : K → Prop} {cs : List AC} (h : ∃ c ∈ cs, AC.Sat G c.invert) :
+    AC.Sat G (AC.mkAnd cs).invert := by
+  obtain ⟨x, hx, hs⟩ := splice_and_inv cs h
+  have h2 : ∃ y ∈ absorbAnd (spliceAnd cs), AC.Sat G y.invert := by
+    cases hn : hasNull (spliceAnd cs) with
+    | false => rw [absorbAnd_of_not hn]; exact ⟨x, hx, hs⟩
+    | true => exact ⟨.null, null_mem_absorbAnd ((hasNull_iff _).mp hn), by simp [AC.invert, AC.Sat]⟩
+  unfold AC.mkAnd
+  generalize absorbAnd (spliceAnd cs) = ys at h2
+  obtain ⟨y, hy, hys⟩ := h2
+  match ys, hy with
+  | [c], hy => simp only [List.mem_singleton] at hy; subst hy; exact hys
+  | c :: d :: r, hy =>
+    simp only [AC.invert, AC.Sat, invertL_eq_map]
+    exact satAny_iff.mpr ⟨y.invert, List.mem_map.mpr ⟨y, hy, rfl⟩, hys⟩
+
+theorem sat_mkOr_invert {G : K → Prop} {cs : List AC} (h : ∀ c ∈ cs, AC.Sat G c.invert) :
+    AC.Sat G (AC.mkOr cs).invert := by
+  have hall : ∀ x ∈ absorbOr (spliceOr cs), AC.Sat G x.invert :=
+    fun x hx => splice_or_inv cs h x (absorbOr_sub _ x hx)
+  unfold AC.mkOr
+  generalize absorbOr (spliceOr cs) = ys at hall
+  match ys, hall with
+  | [], _ => simp [AC.invert, AC.Sat]
+  | [c], hall => exact hall c (by simp)
+  | c :: d :: r, hall =>
+    simp only [AC.invert, AC.Sat, invertL_eq_map]
+    rw [satAll_iff]
+    intro y hy
+    obtain ⟨x, hx, rfl⟩ := List.mem_map.mp hy
+    exact hall x hx
+
+mutual
+/-- **Every condition of the grammar**: in a state where the atoms on the narrowed variable are true
+resp. false of its object as `holds` says and each of them, in that polarity, is a constraint that
+keeps the object, the constraint of the whole condition is satisfied when the condition is true, and
+the inverted constraint when it is false — whatever the object of the other variable and the opaque
+bits are. -/
+theorem bcond_sat {tbl : ClassTable} {T : BoolTable} {ρ : Env} {o : Obj} {G : K → Prop} :
+    ∀ (b : BCond), (∀ c ∈ b.leaves, G (c.kAt T (holds tbl c o))) →
+    (holdsB tbl ρ b o = true → AC.Sat G (b.acIdeal T)) ∧ (holdsB tbl ρ b o = false → AC.Sat G (b.acIdeal T).invert)
+  | .leaf c, h => by
+    have := h c (by simp [BCond.leaves])
+    constructor <;> intro hh <;> simp only [holdsB] at hh <;> rw [hh] at this <;>
+      simpa [BCond.acIdeal, AC.invert, AC.Sat, Cond.kAt] using this
+  | .other c, _ => by simp [BCond.acIdeal, AC.invert, AC.Sat]
+  | .opaque i, _ => by simp [BCond.acIdeal, AC.invert, AC.Sat]
+  | .not b, h => by
+    have ih := bcond_sat (ρ := ρ) b (by simpa [BCond.leaves] using h)
+    constructor <;> intro hh <;> simp only [holdsB, Bool.not_eq_true', Bool.not_eq_false'] at hh
+    · simpa [BCond.acIdeal] using ih.2 hh
+    · simpa [BCond.acIdeal] using sat_invert_invert _ (ih.1 hh)
+  | .and bs, h => by
+    have ih := bcond_satL (ρ := ρ) bs (by simpa [BCond.leaves] using h)
+    simp only [BCond.acIdeal, acL_eq_map, holdsB]
+    constructor <;> intro hh
+    · rw [holdsAll_iff] at hh
+      apply sat_mkAnd
+      intro c hc
+      obtain ⟨b, hb, rfl⟩ := List.mem_map.mp (List.mem_reverse.mp hc)
+      exact (ih b hb).1 (hh b hb)
+    · apply sat_mkAnd_invert
+      have : ∃ b ∈ bs, holdsB tbl ρ b o = false := by
+        rw [Bool.eq_false_iff, ne_eq, holdsAll_iff] at hh
+        by_cases hx : ∃ b ∈ bs, holdsB tbl ρ b o = false
+        · exact hx
+        · exact absurd (fun b hb => by
+            cases hv : holdsB tbl ρ b o with
+            | true => rfl
+            | false => exact absurd ⟨b, hb, hv⟩ hx) hh
+      obtain ⟨b, hb, hv⟩ := this
+      exact ⟨b.acIdeal T, List.mem_reverse.mpr (List.mem_map.mpr ⟨b, hb, rfl⟩), (ih b hb).2 hv⟩
+  | .or bs, h => by
+    have ih := bcond_satL (ρ := ρ) bs (by simpa [BCond.leaves] using h)
+    simp only [BCond.acIdeal, acL_eq_map, holdsB]
+    constructor <;> intro hh
+    · rw [holdsAny_iff] at hh
+      obtain ⟨b, hb, hv⟩ := hh
+      exact sat_mkOr ⟨b.acIdeal T, List.mem_map.mpr ⟨b, hb, rfl⟩, (ih b hb).1 hv⟩
+    · apply sat_mkOr_invert
+      intro c hc
+      obtain ⟨b, hb, rfl⟩ := List.mem_map.mp hc
+      apply (ih b hb).2
+      cases hv : holdsB tbl ρ b o with
+      | false => rfl
+      | true =>
+        rw [Bool.eq_false_iff, ne_eq, holdsAny_iff] at hh
+        exact absurd ⟨b, hb, hv⟩ hh
+theorem bcond_satL {tbl : ClassTable} {T : BoolTable} {ρ : Env} {o : Obj} {G : K → Prop} :
+    ∀ (bs : List BCond), (∀ c ∈ BCond.leavesL bs, G (c.kAt T (holds tbl c o))) →
+    ∀ b ∈ bs, (holdsB tbl ρ b o = true → AC.Sat G (b.acIdeal T)) ∧
+      (holdsB tbl ρ b o = false → AC.Sat G (b.acIdeal T).invert)
+  | [], _ => by simp
+  | b' :: bs, h => by
+    simp only [BCond.leavesL, List.mem_append] at h
+    exact List.forall_mem_cons.mpr
+      ⟨bcond_sat (ρ := ρ) b' (fun c hc => h c (Or.inl hc)),
+       bcond_satL (ρ := ρ) bs (fun c hc => h c (Or.inr hc))⟩
+end
+
+/-- the value is kept by the narrowing of any condition of the grammar, in the branch taken -/
+theorem narrowBIdeal_keeps_core {tbl : ClassTable} {T : BoolTable} {ρ : Env} {o : Obj} {v : Ty} {b : BCond}
+    {pol : Bool} (hleaf : ∀ c ∈ b.leaves, KeepsK tbl T (c.kAt T (holds tbl c o)) o)
+    (hm : mem tbl o v = true) (hh : holdsB tbl ρ b o = pol) :
+    mem tbl o (narrowBIdeal tbl T v b pol) = true := by
+  unfold narrowBIdeal constrain
+  apply constrainKs_keeps _ hm
+  have hs := bcond_sat (G := fun k => KeepsK tbl T k o) (ρ := ρ) b hleaf
+  cases pol
+  · simpa using sat_apply (fun _ h => h) _ (hs.2 hh)
+  · simpa using sat_apply (fun _ h => h) _ (hs.1 hh)
+
+/-- NULL is absorbing for OR: a disjunction with an operand that yields no constraint applies nothing -/
+theorem mkOr_null_apply (cs : List AC) (h : AC.null ∈ cs) : (AC.mkOr cs).apply = [] := by
+  have hin0 : AC.null ∈ spliceOr cs := by
+    induction cs with
+    | nil => simp at h
+    | cons c cs ih =>
+      rcases List.mem_cons.mp h with rfl | h'
+      · simp [spliceOr]
+      · cases c <;> simp [spliceOr, ih h']
+  have hin := null_mem_absorbOr hin0
+  unfold AC.mkOr
+  generalize absorbOr (spliceOr cs) = xs at hin
+  match xs, hin with
+  | [c], hin => simp only [List.mem_singleton] at hin; subst hin; rfl
+  | c :: d :: rest, hin =>
+    simp only [AC.apply, groups_eq, List.map_cons]
+    have : ([] : List K) ∈ (c :: d :: rest).map AC.apply := List.mem_map.mpr ⟨.null, hin, rfl⟩
+    simp only [List.map_cons] at this
+    rcases List.mem_cons.mp this with h0 | h0
+    · simp [← h0]
+    · have : (d.apply :: rest.map AC.apply).any List.isEmpty = true := List.any_eq_true.mpr ⟨[], h0, rfl⟩
+      simp [this]
+
+
+/-- the same for the constraint the checker really extracts, outside the class `nullAbsorbLeak` -/
+theorem narrowB_keeps_core {tbl : ClassTable} {T : BoolTable} {ρ : Env} {o : Obj} {v : Ty} {b : BCond}
+    {pol : Bool} (hleaf : ∀ c ∈ b.leaves, KeepsK tbl T (c.kAt T (holds tbl c o)) o)
+    (hD : nullAbsorbLeak tbl T v b = [])
+    (hm : mem tbl o v = true) (hh : holdsB tbl ρ b o = pol) :
+    mem tbl o (narrowB tbl T v b pol) = true := by
+  have hi := narrowBIdeal_keeps_core hleaf hm hh
+  unfold nullAbsorbLeak at hD
+  split at hD
+  · rename_i hb
+    simp only [Bool.and_eq_true] at hb
+    cases pol
+    · rw [Ty.beq_mem' tbl hb.2]; exact hi
+    · rw [Ty.beq_mem' tbl hb.1]; exact hi
+  · cases hD
 
 end Pya.C02
